@@ -88,6 +88,7 @@ type rCfg struct {
 	TeardownFail    bool   `json:"teardown_fail"` // a cleanup registered by the setup fails when the run is over
 	StepAtUs        int64  `json:"step_at_us"`    // staged step profile: 0 until this instant of the profile, step_val from then on
 	StepVal         int64  `json:"step_val"`
+	StageIntervals  []int64 `json:"stage_intervals_us"` // file mode: the tick interval each stage is configured for (0 = not a rate stage / not stated)
 }
 
 type rTrace struct {
@@ -953,6 +954,9 @@ func buildCases(c *ctx) []rCase {
 		if rc.cfg.MetricsRuns == 0 {
 			rc.cfg.MetricsRuns = 1
 		}
+		if rc.cfg.StageIntervals == nil {
+			rc.cfg.StageIntervals = []int64{}
+		}
 		cases = append(cases, rc)
 	}
 	constantCase := func(name, rate string, intervalUs int64, conc int, maxIter int64, durUs int64, dist string) rCase {
@@ -1519,7 +1523,11 @@ func buildCases(c *ctx) []rCase {
 		if strings.Contains(name, "limit-flag") {
 			lim = 3
 		}
-		add(rCase{cli: cliArgs, cliLimit: lim, cfg: rCfg{Name: name, Mode: "file", Conc: conc, MaxDurUs: maxDurUs, FileStages: nstages, Light: strings.Contains(name, "stress"),
+		var ivs []int64
+		if strings.Contains(name, "inherited-frequency") {
+			ivs = []int64{100 * ms, 100 * ms}
+		}
+		add(rCase{cli: cliArgs, cliLimit: lim, cfg: rCfg{StageIntervals: ivs, Name: name, Mode: "file", Conc: conc, MaxDurUs: maxDurUs, FileStages: nstages, Light: strings.Contains(name, "stress"),
 			Args: strings.ReplaceAll(yy, "\n", "\\n")},
 			build: func(func(api.RateFunction) api.RateFunction) (*api.Trigger, error) {
 				p := filepath.Join(c.out, fmt.Sprintf("cfg-%d.yaml", time.Now().UnixNano()))
@@ -1592,6 +1600,27 @@ stages:
   rate: 2/20ms
 `, 3, []string{"VERIF_STAGE", "VERIF_A", "VERIF_DEF", "VERIF_FAST"},
 		[]string{"VERIF_STAGE=one;VERIF_A=a1", "VERIF_STAGE=two;VERIF_FAST=1", "VERIF_DEF=dflt"}, 5000*ms, 5, 60000)
+	// two staged stages that take their tick interval from the default section, the first one shorter than that interval:
+	// the second still ticks at the default's interval
+	for _, pre := range []string{"", "cli-"} {
+		fileCase(pre+"file-inherited-frequency", `scenario: scn
+limits:
+  max-duration: 5s
+  concurrency: 8
+  max-iterations: 0
+  ignore-dropped: true
+default:
+  mode: staged
+  distribution: none
+  jitter: 0
+  iteration-frequency: 100ms
+stages:
+- duration: 60ms
+  stages: 0s:2,60ms:2
+- duration: 700ms
+  stages: 0s:3,700ms:3
+`, 2, nil, nil, 5000*ms, 8, 1000)
+	}
 	// the limits section's max-duration is SHORTER than the stages: the run stops at it
 	fileCase("cli-file-short-max-duration", `scenario: scn
 limits:
